@@ -809,7 +809,11 @@ def second_life(r, world, rng):
 def stale_tail_cases(ctx, world, ckpts, traces):
     """a shorter branch connected at a lower height, then a header that extends the replaced branch's tip; restart afterwards"""
     n = 0
-    for length, at, blen in ([(1040, 1020, 10), (1037, 1030, 1), (1073, 1036, 30), (1010, 1001, 3)] if ctx.thorough else [(1040, 1020, 10), (1037, 1035, 1)]):
+    base = [(1040, 1020, 10), (1037, 1030, 1), (1073, 1036, 30), (1010, 1001, 3)] if ctx.thorough else [(1040, 1020, 10), (1037, 1035, 1)]
+    # the branch's last header k below the old tip, for every small k (k = 0 replaces the tip itself) and a few branch lengths
+    sweep = [(length, length - 1 - k - (blen - 1), blen) for length in ((1036, 1049) if ctx.thorough else (1038,))
+             for k in (0, 1, 2, 3, 5) for blen in ((1, 2, 8) if ctx.thorough else (1, 4))]
+    for length, at, blen in base + sweep:
         br = world.branch(at, blen + 3, b'stale%d-' % at, lambda h, rng: 155)
         with Case(ctx, traces, Real(world, os.path.join(ctx.mkdir('c'), f'stale-{n}'), ckpts), 'stale-tail', ckpts, (length, at, blen)) as r:
             r.open()
